@@ -7,5 +7,19 @@ package kvql
 var vHarnesses = map[string]func(a []int){
 	"VH_C16_A": func(a []int) { VH_C16_A(a[0], a[1]) },
 	"VH_C02_L1": func(a []int) { VH_C02_L1(a[0], a[1], a[2]) },
+	"VH_C02_L3": func(a []int) { VH_C02_L3(a[0], a[1], a[2], a[3]) },
+	"VH_C18_L1": func(a []int) { VH_C18_L1(a[0], a[1]) },
+	"VH_C18_L2": func(a []int) { VH_C18_L2(a[0], a[1], a[2], a[3]) },
+	"VH_C01": func(a []int) { VH_C01(a[0], a[1], a[2], a[3], a[4]) },
+	"VH_C02_INT": func(a []int) { VH_C02_INT(a[0], a[1], a[2], a[3]) },
+	"VH_C08_L1": func(a []int) { VH_C08_L1(a[0], a[1], a[2], a[3], a[4]) },
+	"VH_C08_L2": func(a []int) { VH_C08_L2(a[0], a[1], a[2], a[3]) },
+	"VH_C08_DEL": func(a []int) { VH_C08_DEL(a[0], a[1]) },
+	"VH_C11": func(a []int) { VH_C11(a[0], a[1], a[2], a[3], a[4]) },
+	"VH_C13": func(a []int) { VH_C13(a[0], a[1], a[2], a[3]) },
+	"VH_C13_REJ": func(a []int) { VH_C13_REJ(a[0], a[1]) },
+	"VH_C12_PUT": func(a []int) { VH_C12_PUT(a[0], a[1], a[2], a[3], a[4]) },
+	"VH_C12_REMOVE": func(a []int) { VH_C12_REMOVE(a[0], a[1], a[2]) },
+	"VH_C12_SEQ": func(a []int) { VH_C12_SEQ(a[0]) },
 	"VH_C02_L2": func(a []int) { VH_C02_L2(a[0], a[1], a[2], a[3], a[4]) },
 }
